@@ -2561,7 +2561,7 @@ class Wallet(object):
         network, account_id, _ = self._get_account_defaults(network, account_id)
         if address_index > self.last_address_index(account_id, cosigner_id, change, network):
             raise WalletError("Key with address_index %d not found in wallet. Please create key first" % address_index)
-        if account_id not in self.accounts():
+        if account_id not in self.accounts(network):
             raise WalletError("Account %d not found in wallet. Please create account first" % account_id)
         return self.key_for_path([], address_index=address_index, account_id=account_id, cosigner_id=cosigner_id,
                                  change=change, network=network)
